@@ -74,6 +74,10 @@ type loopInfo struct {
 	varEntry Term // decreases value at header
 	frameKeys []string
 	hasVar   bool
+	nonFresh map[string]bool // heap kinds the loop may write in objects that existed before the loop
+	// appendOnly[k]: header phis (slice variables) such that every write of kind k into a
+	// pre-existing object is an in-place append to the current value of one of them
+	appendOnly map[string][]*ssa.Phi
 }
 
 func (f *frame) name(v ssa.Value) string {
@@ -329,6 +333,80 @@ func (f *frame) loopMods(li *loopInfo) (keys map[string]bool, all bool, allocs b
 	vc := f.vc
 	keys = map[string]bool{}
 	addType := func(t types.Type) { vc.tt.kinds(t, keys) }
+	// nonFresh: kinds written (possibly) in objects allocated before the loop.  A store whose
+	// address is derived, through field/element addressing only, from an allocation made inside
+	// the loop body writes a fresh object; everything else counts as non-fresh.
+	li.nonFresh = map[string]bool{}
+	addNonFresh := func(t types.Type) { vc.tt.kinds(t, li.nonFresh) }
+	var freshRoot func(v ssa.Value, n int) bool
+	freshRoot = func(v ssa.Value, n int) bool {
+		if n > 8 {
+			return false
+		}
+		switch x := v.(type) {
+		case *ssa.Alloc:
+			return x.Heap && li.blocks[x.Block()]
+		case *ssa.MakeSlice:
+			return li.blocks[x.Block()]
+		case *ssa.FieldAddr:
+			return freshRoot(x.X, n+1)
+		case *ssa.IndexAddr:
+			return freshRoot(x.X, n+1)
+		}
+		return false
+	}
+	// appendsTo: v is the loop-carried value of header phi ph, possibly grown by appends
+	li.appendOnly = map[string][]*ssa.Phi{}
+	var grows func(v ssa.Value, ph *ssa.Phi, n int) bool
+	grows = func(v ssa.Value, ph *ssa.Phi, n int) bool {
+		if n > 6 {
+			return false
+		}
+		switch x := v.(type) {
+		case *ssa.Phi:
+			if x == ph {
+				return true
+			}
+			if !li.blocks[x.Block()] {
+				return false
+			}
+			for _, e := range x.Edges {
+				if !grows(e, ph, n+1) {
+					return false
+				}
+			}
+			return true
+		case *ssa.Call:
+			if bi, ok := x.Call.Value.(*ssa.Builtin); ok && bi.Name() == "append" && li.blocks[x.Block()] {
+				return grows(x.Call.Args[0], ph, n+1)
+			}
+		}
+		return false
+	}
+	// carrier: the header phi whose loop-carried value an append extends (nil if none)
+	carrier := func(call *ssa.Call) *ssa.Phi {
+		for _, in := range li.header.Instrs {
+			ph, ok := in.(*ssa.Phi)
+			if !ok {
+				break
+			}
+			if !grows(call.Call.Args[0], ph, 0) {
+				continue
+			}
+			// every value the loop feeds back into ph must be ph itself grown by appends
+			okAll := true
+			for i, e := range ph.Edges {
+				if li.blocks[li.header.Preds[i]] && !grows(e, ph, 0) {
+					okAll = false
+				}
+			}
+			if okAll {
+				return ph
+			}
+		}
+		return nil
+	}
+	appendNonFresh := map[string]bool{} // kinds with an append that has no carrier
 	var scan func(in ssa.Instruction, depth int)
 	scanFn := func(fn *ssa.Function, depth int) {
 		for _, b := range fn.Blocks {
@@ -342,6 +420,9 @@ func (f *frame) loopMods(li *loopInfo) (keys map[string]bool, all bool, allocs b
 			switch x := in.(type) {
 			case *ssa.Store:
 				addType(x.Val.Type())
+				if depth > 0 || !freshRoot(x.Addr, 0) {
+					addNonFresh(x.Val.Type())
+				}
 			case *ssa.Alloc:
 				allocs = true
 				addType(x.Type().Underlying().(*types.Pointer).Elem())
@@ -370,6 +451,7 @@ func (f *frame) loopMods(li *loopInfo) (keys map[string]bool, all bool, allocs b
 				mt := x.Map.Type().Underlying().(*types.Map)
 				for _, k := range vc.mapKeys(mt) {
 					keys[k] = true
+					li.nonFresh[k] = true
 				}
 			case *ssa.Defer, *ssa.Go, *ssa.Send, *ssa.Select:
 				all = true
@@ -379,13 +461,37 @@ func (f *frame) loopMods(li *loopInfo) (keys map[string]bool, all bool, allocs b
 					switch bi.Name() {
 					case "append":
 						allocs = true
-						addType(cm.Args[0].Type().Underlying().(*types.Slice).Elem())
+						et := cm.Args[0].Type().Underlying().(*types.Slice).Elem()
+						addType(et)
+						var ph *ssa.Phi
+						if call, ok := in.(*ssa.Call); ok && depth == 0 {
+							ph = carrier(call)
+						}
+						ek := map[string]bool{}
+						vc.tt.kinds(et, ek)
+						for k := range ek {
+							if ph == nil {
+								appendNonFresh[k] = true
+							} else {
+								dup := false
+								for _, q := range li.appendOnly[k] {
+									if q == ph {
+										dup = true
+									}
+								}
+								if !dup {
+									li.appendOnly[k] = append(li.appendOnly[k], ph)
+								}
+							}
+						}
 					case "copy":
 						addType(cm.Args[0].Type().Underlying().(*types.Slice).Elem())
+						addNonFresh(cm.Args[0].Type().Underlying().(*types.Slice).Elem())
 					case "delete":
 						mt := cm.Args[0].Type().Underlying().(*types.Map)
 						for _, k := range vc.mapKeys(mt) {
 							keys[k] = true
+							li.nonFresh[k] = true
 						}
 					}
 					return
@@ -428,6 +534,7 @@ func (f *frame) loopMods(li *loopInfo) (keys map[string]bool, all bool, allocs b
 								}
 								for k := range ks {
 									keys[k] = true
+									li.nonFresh[k] = true
 								}
 							}
 						case csp == nil && isLeaf(fn):
@@ -450,6 +557,7 @@ func (f *frame) loopMods(li *loopInfo) (keys map[string]bool, all bool, allocs b
 					}
 					for k := range ks {
 						keys[k] = true
+						li.nonFresh[k] = true
 					}
 				}
 			}
@@ -459,6 +567,12 @@ func (f *frame) loopMods(li *loopInfo) (keys map[string]bool, all bool, allocs b
 		for _, in := range b.Instrs {
 			scan(in, 0)
 		}
+	}
+	for k := range appendNonFresh {
+		li.nonFresh[k] = true
+	}
+	for k := range li.nonFresh {
+		delete(li.appendOnly, k)
 	}
 	return
 }
@@ -612,8 +726,38 @@ func (f *frame) enterLoop(li *loopInfo, reach Term, cur *State, phiPre map[*ssa.
 		}
 		sort.Strings(ks)
 		for _, k := range ks {
+			pre := vc.heap(cur, k)
 			h := vc.declare("Hloop_"+sanitize(k), heapKeySort(k))
 			cur.H[k] = h
+			if phs := li.appendOnly[k]; len(phs) > 0 && !li.nonFresh[k] && !strings.HasPrefix(k, "M") {
+				// besides fresh objects the loop writes this kind only by appending in place to
+				// the loop-carried slices phs: their backing array is the one they had at loop
+				// entry or a fresh one, so every other object that existed at loop entry is unchanged
+				vc.nfresh++
+				o := fmt.Sprintf("lfo_%d", vc.nfresh)
+				var ne []Term
+				sort.Slice(phs, func(i, j int) bool { return phs[i].Name() < phs[j].Name() })
+				okPre := true
+				for _, ph := range phs {
+					pv, ok := phiPre[ph]
+					if !ok {
+						okPre = false
+						break
+					}
+					ne = append(ne, Ne(Term{o, SInt}, SObj(pv)))
+				}
+				if okPre {
+					vc.cmd(fmt.Sprintf("(assert (=> %s (forall ((%s Int)) (! (=> (and (<= 1 %s) (<= %s %s) %s) (= (select %s %s) (select %s %s))) :pattern ((select %s %s))))))",
+						reach.S, o, o, o, cur.Alloc.S, And(ne...).S, h.S, o, pre.S, o, h.S, o))
+				}
+			} else if !li.nonFresh[k] && !strings.HasPrefix(k, "M") {
+				// the loop writes this kind only in objects it allocates itself: every object
+				// that existed at loop entry keeps its cells of this kind
+				vc.nfresh++
+				o := fmt.Sprintf("lfo_%d", vc.nfresh)
+				vc.cmd(fmt.Sprintf("(assert (=> %s (forall ((%s Int)) (! (=> (and (<= 1 %s) (<= %s %s)) (= (select %s %s) (select %s %s))) :pattern ((select %s %s))))))",
+					reach.S, o, o, o, cur.Alloc.S, h.S, o, pre.S, o, h.S, o))
+			}
 		}
 		if allocs {
 			old := cur.Alloc
